@@ -438,13 +438,16 @@ def evaluate_payload_template(input, context, template):
             # ASL spec specifies inclusive range but Python range is exclusive
             # (for a negative increment the inclusive end is end - 1).
             stop = end + 1 if increment > 0 else end - 1
-            array = [i for i in range(start, stop, increment)]
 
-            if len(array) > 1000:
+            # Count the items arithmetically (ceiling division) before
+            # building the array, so that a huge range fails cleanly instead
+            # of exhausting memory.
+            count = max(0, -((start - stop) // increment))
+            if count > 1000:
                 raise IntrinsicFailure(
                     "States.ArrayRange failed with > 1000 items in range."
                 )
-            return array
+            return [i for i in range(start, stop, increment)]
 
         def asl_intrinsic_ArrayGetItem(args):
             if len(args) != 2:
